@@ -23,6 +23,8 @@ def make_cases(rng, n, schema_share=0.25):
             g = gen.gen_schema_graph(rng, inst_prop=ip)
         else:
             g = gen.gen_graph(rng, inst_prop=ip)
+        if rng.random() < 0.15:
+            g = list(dict.fromkeys(gen.spice_literals(rng, g)))      # awkward but legal lexical forms: no figure depends on the text of a literal
         cases.append((g, gen.gen_cfg(rng, g, inst_prop=ip, allow_or=True)))
     return cases
 
